@@ -77,6 +77,8 @@ def prim_entries():
     for f, k in (('AO21', 3), ('OA21', 3), ('AOI21', 3), ('OAI21', 3), ('AO22', 4), ('OA22', 4), ('AOI22', 4), ('OAI22', 4),
                  ('AOI211', 4), ('OAI211', 4)): add(f, f, k)
     add('MUX2', 'MUX21', 3)
+    for k in (5, 6, 7, 8, 9):       # wide gates (finding D33): a cell whose implementation is ONE node of the family with k pins
+        for f in ('AND', 'NAND', 'OR', 'NOR', 'XOR', 'XNOR'): add(f'{f}{k}', f'{f}{k}', k)
     L.append(cells._entry('DFF', ['DFF'], ['D'], ['Q', 'QN'], clk='CLK'))
     src.append('DFF input(D,CLK) output(Q,QN) Q=DFF(D,CLK) QN=INV1(Q) ;')
     return L, '\n'.join(src) + '\n'
@@ -266,6 +268,15 @@ def check_text(case, text=None):
 def eval_case(case):
     """oracle on the REAL code: (ok, observed, expected); observed['class'] names the violation class"""
     ok, obs, exp = check_text(case)
+    if not ok and gen.has_wide(case['nl']) and obs.get('stage') == 'function':
+        # counterfactual ground truth: every wide gate read as the 4-input primitive of its first four pins (what SimOps schedules)
+        c2 = dict(case, nl=gen.narrowed(case['nl']))
+        if check_text(c2)[0]:
+            obs['class'] = 'wide-gate'
+            obs['explanation'] = ('a gate with more than four inputs is simulated as the 4-input primitive of its first four pins '
+                                  '(sim.py chooses the arity variant by pins 2 and 3 and reads pins 0..3); against that reading of the '
+                                  'same text the table is correct')
+            return ok, obs, exp
     if ok or case['fmt'] != 'verilog':
         if not ok: obs['class'] = 'bench-' + obs['stage']
         return ok, obs, exp
@@ -500,6 +511,19 @@ def parsed_sem_bench(ck, case, c):
     names, dump, closed = r
     toks = enc_bench(case['ast'])
     nl = case['nl']
+    # domain predicate of the headline theorems (audit finding 1 / D33): evaluated per case; the generator knows the answer
+    try:
+        ar = common.run_driver([f'bencharity {toks}', f'net {dump}', 'netarity'])
+        arity = ar[0] == 'arity=1'
+        if ar[0] not in ('arity=0', 'arity=1') or ar[2] != f'arity={"true" if arity else "false"}':
+            ck.broken_tie('parsed_sem (bench): arity predicates', f'benchArityB: {ar[0]}, Net.arityOKB of the net: {ar[2]}', inp=_slim(case)); return
+    except Exception as ex:
+        ck.broken_tie('parsed_sem (bench): driver', f'{type(ex).__name__}: {ex}'[:300], inp=_slim(case)); return
+    ck.hist[f'parsed-sem:bench:benchArityB={int(arity)}'] += 1
+    if arity == gen.has_wide(nl):
+        ck.broken_tie('parsed_sem (bench): arity domain', f'benchArityB={arity} but the generator {"put" if gen.has_wide(nl) else "put no"} '
+                      f'wide gate into the netlist', inp=_slim(case)); return
+    if not arity: nl = gen.narrowed(nl)      # outside the domain the model follows the CODE: first four operands (finding D33)
     pis, ffs, pos = nl['pi'], gen.ff_insts(nl), nl['po']
     rows = stim_rows(len(pis) + len(ffs), case.get('seed', 0))
     ncol = rows.shape[1]
@@ -541,7 +565,7 @@ def parsed_sem_bench(ck, case, c):
             ck.broken_tie('parsed_sem (bench): denotation', f'model sigma observed at outputs/flip-flop data {obs} != generator {want} '
                           f'(assignment {reqs[j]} over {names})', inp=_slim(case)); return
     ck.hist['parsed-sem:bench:denotation-rows'] += sub.shape[1]
-    ck.hist['parsed-sem:bench:covered'] += 1
+    ck.hist['parsed-sem:bench:covered' if arity else 'parsed-sem:bench:outside-arity-domain(sigma = first-four-operands reading compared)'] += 1
 
 
 # ---------------------------------------------------------------------------------------------- parsed_sem (Verilog fragment)
@@ -634,6 +658,18 @@ def parsed_sem_verilog(ck, case, c):
                       f'model {dump[max(0, k - 20):k + 30]!r} real {real[max(0, k - 20):k + 30]!r}', inp=_slim(case)); return
     ck.hist['parsed-sem:verilog:dump-equal'] += 1
     if not okv: return
+    try:
+        ar = common.run_driver([f'verilogarity {table} {toks}', f'net {dump}', 'netarity'])
+        arity = ar[0] == 'arity=1'
+        if ar[0] not in ('arity=0', 'arity=1') or ar[2] != f'arity={"true" if arity else "false"}':
+            ck.broken_tie('parsed_sem (verilog): arity predicates', f'vArityB: {ar[0]}, Net.arityOKB of the net: {ar[2]}', inp=_slim(case)); return
+    except Exception as ex:
+        ck.broken_tie('parsed_sem (verilog): driver', f'{type(ex).__name__}: {ex}'[:300], inp=_slim(case)); return
+    ck.hist[f'parsed-sem:verilog:vArityB={int(arity)}'] += 1
+    if case['tlib'] == 'PRIM' and arity == gen.has_wide(case['nl']):
+        ck.broken_tie('parsed_sem (verilog): arity domain', f'vArityB={arity} disagrees with the generator (wide gate: {gen.has_wide(case["nl"])})',
+                      inp=_slim(case)); return
+    covered = 'parsed-sem:verilog:covered' if arity else 'parsed-sem:verilog:outside-arity-domain(sigma = pins-0..3 reading compared)'
     hyp = False
     try:
         order = ','.join(str(n.index) for n in c.topological_order())
@@ -647,8 +683,8 @@ def parsed_sem_verilog(ck, case, c):
     # denotation vs the real simulator on the unresolved circuit — where the simulator schedules every line (`linesDrivenB`:
     # every cell kind is known to its prefix table); elsewhere the unresolved circuit has no simulation to compare with
     if not hyp:
-        ck.hist['parsed-sem:verilog:denotation-not-compared(kinds unknown to the simulator)'] += 1
-        ck.hist['parsed-sem:verilog:covered'] += 1
+        # audit finding 10(e): inside the fragment, but sigma was compared with nothing — NOT counted as covered
+        ck.hist['parsed-sem:verilog:in-fragment-sigma-not-compared(kinds unknown to the simulator)'] += 1
         return
     snodes = list(c.s_nodes)
     if [f'c:{pct(n.name)}' for n in snodes] != names:
@@ -681,10 +717,10 @@ def parsed_sem_verilog(ck, case, c):
                 ck.broken_tie('parsed_sem (verilog): denotation', f'model sigma observed at {n.name!r}: {g[k]} != real LogicSim on the '
                               f'unresolved circuit: {int(tab[k, j])} (assignment {reqs[j]} over {names})', inp=_slim(case)); return
     ck.hist['parsed-sem:verilog:denotation-rows'] += sub.shape[1]
-    ck.hist['parsed-sem:verilog:covered'] += 1
+    ck.hist[covered] += 1
     if case['tlib'] != 'PRIM': return
     # library of primitives: the denotation IS the function of the netlist — compare with the generator's own evaluation
-    nl = case['nl']
+    nl = case['nl'] if arity else gen.narrowed(case['nl'])      # outside the arity domain: the reading the code has (finding D33)
     pis, ffs, pos = nl['pi'], gen.ff_insts(nl), nl['po']
     try:
         ipos = [names.index('c:' + pct(b)) for b in pis] + [names.index('c:' + pct(f)) for f in ffs]
@@ -1100,7 +1136,8 @@ def make_cases(rng, notes):
     r = rng.random()
     bench_only = r < 0.3
     lib = rng.choice(VLIBS + ['PRIM', 'PRIM'] + (['BENCH'] if bench_only else []))
-    nl = gen.gen_netlist(rng, lib, bench_only=bench_only)
+    p_wide = rng.choice([0.15, 0.3, 0.6]) if (lib in ('BENCH', 'PRIM') and rng.random() < 0.2) else 0.0   # finding D33: 5..9-input gates
+    nl = gen.gen_netlist(rng, lib, bench_only=bench_only, p_wide=p_wide)
     if lib != 'BENCH' and rng.random() < 0.25:     # a netlist without assign statements and constants: assigns as buffers, constants as tie cells
         nl2 = to_fragment(rng, nl)
         if nl2 is not None:
@@ -1128,6 +1165,7 @@ def describe(nl, case):
     if fams & {'AOI21', 'OAI21', 'AOI211', 'OAI211', 'MUX2', 'MUX4', 'AOI221', 'OAI221', 'AO21', 'OA21', 'AO221', 'OA221', 'ISOLAND'}:
         tags.append('asymmetric-cell')
     if 'DEC24' in fams: tags.append('4-output-cell')
+    if gen.has_wide(nl): tags.append(f"wide-gate(max {max(len(g['args']) for g in nl['gates'])} inputs)")
     if any(cells.is_seq(g['fam']) and g['res'][-1] is not None and len(g['res']) > 1 for g in nl['gates']): tags.append('ff-QN-used')
     if case['fmt'] == 'bench' and any(nl['driven'].get(a, [''])[0] != 'pi' and a in nl['po'] for g in nl['gates'] for a in g['args'] if a not in gen.CONST):
         tags.append('bench-output-read-internally')
@@ -1165,6 +1203,7 @@ def run_netlist(ck, nl, cases, notes):
             ck.hist['violation:' + cls] += 1
             what = {'assign-chain-order': 'verilog.parse: an assign that reads the target of a later assign statement is dropped',
                     'onebit-bus-nonzero-index': 'verilog.parse: a pin naming a 1-bit bus [k:k] (k != 0) by its base name reads an undriven fork',
+                    'wide-gate': 'a gate with more than four inputs simulates as the 4-input primitive of its first four pins',
                     'verilog-lexical': 'verilog.parse: whitespace/comment/escaped-identifier rendering changes the result'}.get(
                         cls, f"parsed circuit differs from the described netlist ({obs.get('stage')})")
             if ck.hist['violation:' + cls] <= 2:      # at most two replays per class, so that every class gets one
